@@ -951,12 +951,13 @@ static int verif_capture_read( vbi_capture * vc, vbi_capture_buffer ** raw,
 
    r = read(v->tick_fd, &frame, sizeof(frame));
    if ((r < 0) && (errno == EAGAIN) && (v->has_select == FALSE))
-   {  /* acquisition thread: wait for the next tick */
-      struct timeval tv = *timeout;
+   {  /* acquisition thread: block until the next tick, like read(2) on a device without
+      ** select support (the daemon passes a zero timeout; select is a cancellation point) */
       fd_set rd;
+      timeout = timeout;
       FD_ZERO(&rd);
       FD_SET(v->tick_fd, &rd);
-      if (select(v->tick_fd + 1, &rd, NULL, NULL, &tv) > 0)
+      if (select(v->tick_fd + 1, &rd, NULL, NULL, NULL) > 0)
          r = read(v->tick_fd, &frame, sizeof(frame));
    }
    if (r != sizeof(frame))
